@@ -32,7 +32,7 @@ type candRow struct {
 	Panic string    `json:"panic"`
 }
 
-const vUnknownLag = 99999999
+const vUnknownLag = 2000000000 // milliseconds
 
 func candSetText(set []int) string {
 	var s vSet
@@ -54,7 +54,7 @@ func candOne(out string, pos []candPos, b, from int) candRow {
 	positions := []nodePosition{}
 	for i, p := range pos {
 		set := p.Set
-		positions = append(positions, nodePosition{host: fmt.Sprintf("h%d", i+1), gtidset: gtids.ParseGtidSet(candSetText(set)), lag: float64(p.Lag), priority: p.Prio})
+		positions = append(positions, nodePosition{host: fmt.Sprintf("h%d", i+1), gtidset: gtids.ParseGtidSet(candSetText(set)), lag: float64(p.Lag) / 1000, priority: p.Prio})
 	}
 	fromHost := ""
 	if from > 0 {
@@ -79,7 +79,7 @@ func candOne(out string, pos []candPos, b, from int) candRow {
 		if fromHost != "" {
 			p2 = filterOutNodeFromPositions(positions, fromHost)
 		}
-		r.host, r.err = getMostDesirableNode(&logger, p2, time.Duration(b)*time.Second)
+		r.host, r.err = getMostDesirableNode(&logger, p2, time.Duration(b)*time.Millisecond)
 	}()
 	select {
 	case r := <-ch:
@@ -98,14 +98,21 @@ func TestVerifCandidate(t *testing.T) {
 	w := vNewRows(t, "rows.ndjson")
 	defer w.close()
 	sets := [][]int{{}, {1}, {2}, {1, 2}}
-	bounds := []int{0, 1, 60}
+	// lags and bounds are in MILLISECONDS in the rows (the specification is unit-agnostic); 1500 is a bound that is
+	// not a whole number of seconds
+	bounds := []int{0, 1000, 60000, 1500}
 	maxExh := vEnvInt("VERIF_MAXEXH", 2)
 	hangs := 0
 	for _, b := range bounds {
-		lags := []int{0, b, b + 1, 2*b + 2, vUnknownLag}
-		if b > 1 {
+		lags := []int{0, b, b + 1000, 2*b + 2000, vUnknownLag}
+		if b > 1000 {
 			// b+1 vs 1 and 2b+1 vs b+1: the difference is EXACTLY the bound while the larger lag is above it
-			lags = append(lags, b-1, 1, 2*b+1)
+			lags = append(lags, b-1000, 1000, 2*b+1000)
+		}
+		if b == 1500 {
+			// multiples of 125 ms only: exactly representable in binary floating point, so "smaller by exactly the bound" is
+			// not blurred by rounding (0.8-0.5 > 0.3 in float64)
+			lags = []int{0, 1000, 1250, 1500, 1625, 2500, 3125, vUnknownLag}
 		}
 		var grid []candPos
 		for _, pr := range []int64{0, 1, 2} {
@@ -137,9 +144,14 @@ func TestVerifCandidate(t *testing.T) {
 	rng := rand.New(rand.NewSource(int64(vEnvInt("VERIF_SEED", 1))))
 	sets3 := [][]int{{}, {1}, {2}, {1, 2}, {1, 2, 3}, {3}, {1, 3}}
 	for i := 0; i < vEnvInt("VERIF_RANDOM", 12000) && hangs <= 3; i++ {
-		b := []int{0, 1, 5, 60}[rng.Intn(4)]
+		b := []int{0, 1000, 5000, 60000, 1500, 500}[rng.Intn(6)]
 		n := 3 + rng.Intn(3)
-		lagc := []int{0, 1, b, b + 1, 2 * b, 2*b + 1, 2*b + 2, 3*b + 3, vUnknownLag, 7}
+		lagc := []int{0, 1000, b, b + 1000, 2 * b, 2*b + 1000, 2*b + 2000, 3*b + 3000, vUnknownLag, 7000, b + 250, b - 250, 1250, 375}
+		for k := range lagc {
+			if lagc[k] < 0 {
+				lagc[k] = 0
+			}
+		}
 		var cur []candPos
 		eqPrio := rng.Intn(3) == 0
 		for j := 0; j < n; j++ {
